@@ -47,8 +47,9 @@ type Scen struct {
 	SlowRt   bool // the runtime takes 300 ms to answer (so that an extension's fault lands before the response)
 	// PhaseOf, if set, names the World.Phase in force from invocation i (1-based) on: faults carry a Phase
 	// and strike the first process of their program launched in it (histories of several faulty generations)
-	PhaseOf func(i int) string
-	FailAt  int // overrides FailingInvocation (faults of later phases count invocations per process)
+	PhaseOf    func(i int) string
+	FailAt     int  // overrides FailingInvocation (faults of later phases count invocations per process)
+	VaryEvents bool // extensions of even generations subscribe to SHUTDOWN only
 }
 
 func (s Scen) Name() string {
@@ -58,6 +59,9 @@ func (s Scen) Name() string {
 	}
 	if s.SlowRt {
 		n += " slowRuntime"
+	}
+	if s.VaryEvents {
+		n += " ext-events-vary-by-generation"
 	}
 	return n
 }
@@ -188,7 +192,11 @@ func (s Scen) Config() *stack.Config {
 			if mine && f.Point == "before-register" {
 				act(x, f.Action)
 			}
-			if c := x.Register(ev, ""); c.Status != 200 {
+			evs := ev
+			if s.VaryEvents && x.Gen%2 == 0 {
+				evs = []string{"SHUTDOWN"} // every second generation subscribes differently
+			}
+			if c := x.Register(evs, ""); c.Status != 200 {
 				x.Stall()
 			}
 			if mine && f.Point == "after-register" {
